@@ -231,9 +231,10 @@ func histIlv(c *core.Ctx, t *core.Trace, gen string, cas int, md wbMode) {
 	act := func(tag string) func() {
 		switch x := r.Intn(14); {
 		case x == 10:
-			// the file is taken away.  Between the stat and the read only if the parser survives it.
+			// the file is taken away: after the stat (the parser will not find it), after the parse,
+			// inside the notification
 			return func() {
-				if w.gone || (tag == "pre" && !w.noFatal) {
+				if w.gone {
 					return
 				}
 				w.deleteFile()
